@@ -171,6 +171,15 @@ const STRING_SHAPES: &[&str] = &[
     "\"a\\\\\"", "\"\\\\\"", "\"x \\\\\\\\\"", "\"q\\\"\\\\\"", "\"{x}\\\\\"",
 ];
 
+/// type expressions whose rendering needs (or must not get) parentheses: process, function, union and intersection types nested
+/// in each other, in alias, parameter and pattern position
+const TYPE_SHAPES: &[&str] = &[
+    "'r = (x: 'int)\n'w = (y: 'int)\n'p = @('r & 'w)\n1", "'p = @(#'int -> 'bin)\n1", "'p = @('int | 'bin)\n1", "'p = @'int -> 'bin\n1", "'p = @('int | 'bin) -> ('bin | [])\n1",
+    "'f = #('int | 'bin) -> ('bin & (x: 'int))\n1", "'f = #(#'int -> 'bin) -> (#'bin -> 'int)\n1", "'f = #@('int | 'bin) -> 'int\n1", "'u = (@'int) | (#'int -> 'int) | A[(@'bin)]\n1",
+    "'r = (x: 'int)\n'w = (y: 'int)\nf = #@('r & 'w) { $ }, 1", "f = #(@'int | 'int) { =(@'int) => Yes | No }, 1", "'t = A[(#'int -> 'int), (@('int | 'bin))]\n1", "'l<'t> = Nil | Cons['t, ^]\n'p = @('l<'int> | 'l<'bin>)\n1",
+    "x = 5, x =(('int | 'bin))y, y", "'i = ((x: 'int) & (y: 'bin)) | []\n1",
+];
+
 pub fn gen_case(seed: u64, idx: u64) -> (&'static str, String) {
     let items = corpus_items();
     let mut rng = Rng::derive(seed, "C17", 0, idx);
@@ -178,6 +187,7 @@ pub fn gen_case(seed: u64, idx: u64) -> (&'static str, String) {
     let base = loop { let it = &items[rng.below(items.len())]; if it.src.len() < 6000 && crate::qv::parses(&it.src) { break it.src.clone(); } };
     let toks = tokens(&base);
     match idx % 8 {
+        0 if idx % 64 == 0 => { let t = TYPE_SHAPES[(idx / 64) as usize % TYPE_SHAPES.len()].to_string(); if crate::qv::parses(&t) { ("type-shapes", t) } else { ("corpus", base) } }
         0 => ("corpus", base),
         1 | 2 | 3 => {
             // trivia injection at token boundaries: unique comments and blank lines; keep only if it still parses
